@@ -30,8 +30,9 @@ Python lines mirrored (line numbers of /repo/esr/fitting/combine_DL.py):
                      `np.exp(-Prel_DL)`, non-finite/NaN entries set to `0.0`, then `if np.sum(Prel) > 0:` division
                      by `np.sum` (a plain left-to-right sum here; numpy's pairwise order differs only in rounding).
 * `gather`, `mkRows` — lines 137-142 (`x_min[indices_sort]`) and 169-178 (the csv rows, rank = loop index `i`).
-* `main`           — the whole function; `none` where Python raises: `data[:,0]` on a 1-D array (line 42, fewer than
-                     two variant rows in total; line 110, fewer than two unique functions).
+* `main`           — the whole function; `none` where Python raises: `data[:,0]` on `np.atleast_2d` of an empty table
+                     (line 42, no variant row at all; line 110, no unique function).  One-row tables are read as
+                     2-d arrays since fix f575df7 (F16).
 
 Not modelled: rounding of `exp`, `%.16e` text round trip (exact for doubles), the PrettyTable output.
 -/
@@ -205,8 +206,8 @@ def finalOf (ops : Ops α) (npar : Nat) (mins : List (MinRow α)) : List (FinalR
 
 /-- `combine_DL.main(comp, likelihood)` on `P` ranks: the rows of `final_<n>.dat`. -/
 def main (ops : Ops α) (t : Table α) (P : Nat) : Option (List (FinalRow α)) :=
-  if t.rows.length < 2 then none            -- line 42: `data[:,0]` on a 1-D (or empty) array
-  else if t.nUniq < 2 then none             -- line 110: the same on the combined file
+  if t.rows.length < 1 then none            -- line 42: `data[:,0]` on `atleast_2d` of an EMPTY table (shape (1,0))
+  else if t.nUniq < 1 then none             -- line 110: the same on the combined file
   else some (finalOf ops t.npar (combined ops t P))
 
 /-! ### executable instance -/
